@@ -18,6 +18,10 @@ type RefFailure struct {
 	AfterNil bool
 }
 
+// BadEnumMsg stands for the text of thunder's own error about an enum value without a name; the text
+// itself is never compared.
+const BadEnumMsg = "<enum value without a name>"
+
 // Reached is one resolver result the evaluation used: a function field of an object at a response path.
 type Reached struct {
 	Obj      *Obj
@@ -30,6 +34,7 @@ type RefResult struct {
 	JSON     interface{}
 	Failures []RefFailure
 	Reached  []Reached
+	Enums    []*Val // the enum values the evaluation read
 }
 
 type refEval struct {
@@ -38,6 +43,7 @@ type refEval struct {
 	fails []RefFailure
 	afterNil bool
 	reached  []Reached
+	enums    []*Val
 }
 
 func RefEval(spec *SchemaSpec, d *Data, q *Query) RefResult {
@@ -46,7 +52,7 @@ func RefEval(spec *SchemaSpec, d *Data, q *Query) RefResult {
 		e.frags[f.Name] = f
 	}
 	j := e.object("Query", d.Root, [][]*Node{q.Body}, nil, false)
-	return RefResult{JSON: j, Failures: e.fails, Reached: e.reached}
+	return RefResult{JSON: j, Failures: e.fails, Reached: e.reached, Enums: e.enums}
 }
 
 // fields collects the field nodes that apply to an object of type typ: those of the sets and of
@@ -151,6 +157,12 @@ func (e *refEval) value(t TRef, v *Val, subs [][]*Node, path []string) interface
 	case "bool":
 		return v.B
 	case "enum":
+		e.enums = append(e.enums, v)
+		if v.I < 0 || int(v.I) >= len(ColorNames) {
+			// not in the enum's map: the executor fails the query at this element
+			e.fails = append(e.fails, RefFailure{Kind: "badenum", Msg: BadEnumMsg, Path: append([]string{}, path...), AfterNil: e.afterNil})
+			return nil
+		}
 		return ColorNames[v.I]
 	case "obj":
 		return e.object(t.Name, v.O, subs, path, false)
